@@ -66,12 +66,15 @@ def half_overlap(p, c):
     return (p["re"] - c["rs"]) * 2 > rl or (p["qe"] - c["qs"]) * 2 > ql
 
 
-def check(case, brute=True):
+def check(case, brute=True, shared=None):
     from src.alignment.segment_chainer import SegmentChainer, SequentialityScorer
     segs = case["segments"]
     objs = build_segments(case)
-    scorer = SequentialityScorer(case["mult"], case["ss"])
-    chainer = SegmentChainer(scorer)
+    if shared is None:
+        scorer = SequentialityScorer(case["mult"], case["ss"])
+        chainer = SegmentChainer(scorer)
+    else:
+        scorer, chainer = shared
     ne = [i for i, s in enumerate(segs) if s is not None]
     em = [i for i, s in enumerate(segs) if s is None]
     res = sut(chainer.chain, list(objs))
@@ -220,6 +223,53 @@ def seg_set(draw, maxn, big=False):
             "mult": draw(st.sampled_from([1, 1, 0.5, 2]))}
 
 
+def check_history(case):
+    """one chainer (and its scorer) used for several segment sets in a row, as one worker uses it for every
+    candidate of every query"""
+    from src.alignment.segment_chainer import SegmentChainer, SequentialityScorer
+    scorer = SequentialityScorer(case["mult"], case["ss"])
+    shared = (scorer, SegmentChainer(scorer))
+    nt = False
+    cl = set()
+    for sset in case["sets"]:
+        info = check({"segments": sset["segments"], "reverse": sset["reverse"], "mult": case["mult"], "ss": case["ss"]},
+                     shared=shared)
+        nt = nt or info["nontrivial"]
+        cl.update(info["classes"])
+    return {"nontrivial": nt, "classes": sorted(cl) + [f"sets={len(case['sets'])}"]}
+
+
+@st.composite
+def history_case(draw):
+    first = draw(seg_set(6))
+    sets = [first]
+    for _ in range(draw(st.integers(1, 2))):
+        if draw(st.booleans()):
+            sets.append(draw(seg_set(6)))
+        else:
+            # same distances between segments, other lengths / scores: what an insufficiently keyed memo would confuse
+            segs = []
+            for sg in sets[-1]["segments"]:
+                if sg is None:
+                    continue
+                cut = draw(st.integers(0, 3))
+                u = 1 if (sg["re"] - sg["rs"]) % 10 else 10
+                d = dict(sg)
+                if cut == 1 and d["re"] - d["rs"] > u and d["qe"] - d["qs"] > u:       # shorten from the far end
+                    k = draw(st.integers(1, max(1, min(d["re"] - d["rs"], d["qe"] - d["qs"]) // u - 1))) * u
+                    if len(segs) % 2:
+                        d["rs"] += k
+                        d["qs"] += k
+                    else:
+                        d["re"] -= k
+                        d["qe"] -= k
+                elif cut == 2:
+                    d["score"] = draw(st.integers(1, 3000))
+                segs.append(d)
+            sets.append({"segments": segs, "reverse": draw(st.booleans())})
+    return {"sets": [{"segments": x["segments"], "reverse": x["reverse"]} for x in sets], "mult": first["mult"], "ss": first["ss"]}
+
+
 def pair_grid(maxlen):
     """every pair of segments on a 1 bp grid: lengths 0..maxlen on each map (0 on both or >0 on both), second segment
     starting from 2 bp after the first one's end down to its start - 1, independently on the two maps"""
@@ -258,6 +308,8 @@ def subchecks(tier):
         Sub("brute-force", "hyp", check, strategy=lambda: seg_set(8 if q else 12), examples=40000 if q else 400000,
             describe="every admissible sequence enumerated", shrink_budget=600,
             required_classes=("tied-keys", "reverse", "ss=1")),
+        Sub("chainer-history", "hyp", check_history, strategy=history_case, examples=8000 if q else 150000, shrink_budget=600,
+            describe="one chainer/scorer instance reused for 2-3 segment sets (the later ones partly derived from the earlier)"),
         Sub("large-dp", "hyp", lambda c: check(c, brute=False), strategy=lambda: seg_set(40, big=True),
             examples=4000 if q else 60000, describe="<=40 segments, distinct keys, independent DP", shrink_budget=400),
     ]
